@@ -200,6 +200,8 @@ var c11Keys = []c11Lines{
 	{"valid+blank", []string{c11ValidKey, ""}}, // two header lines, one of them empty: not "exactly one key"
 	{"blank+valid", []string{"", c11ValidKey}},
 	{"15-bytes", []string{"AAECAwQFBgcICQoLDA0O"}},
+	{"21-bytes", []string{"AAECAwQFBgcICQoLDA0ODxAREhMU"}}, // valid base64, more than the decoded size of a 24-character key
+	{"32-bytes", []string{"AAECAwQFBgcICQoLDA0ODxAREhMUFRYXGBkaGxwdHh8="}},
 	{"17-bytes", []string{"AAECAwQFBgcICQoLDA0ODxA="}},
 	{"not-base64", []string{"!!!!not*base64!!!!!!!!=="}},
 	// a complete, padded 16-byte key followed by something else on the same line
@@ -312,14 +314,20 @@ func c11One(c *fw.Ctx, cs c11Case) {
 
 	var conn *websocket.Conn
 	var err error
+	// the options are the application's: the library gets its own copy of the list and must leave it alone
+	given := append([]string(nil), cs.Supported...)
 	if p := fw.Recover(func() {
-		conn, err = websocket.Accept(w, r, &websocket.AcceptOptions{Subprotocols: cs.Supported})
+		conn, err = websocket.Accept(w, r, &websocket.AcceptOptions{Subprotocols: given})
 	}); p != "" {
 		c.Violate("C11/panic", fmt.Sprintf("%+v: Accept panicked: %s", cs, p), cs)
 		c11Finish(w, conn)
 		return
 	}
 	defer c11Finish(w, conn)
+	if strings.Join(given, "\x00") != strings.Join(cs.Supported, "\x00") {
+		c.Violate("C11/caller-options-modified", fmt.Sprintf("%+v: AcceptOptions.Subprotocols was %q before Accept and is %q afterwards (the order is the server's preference)", cs, cs.Supported, given), cs)
+		return
+	}
 
 	upgraded := conn != nil
 	clauses := strings.Join(failed, "+")
@@ -407,7 +415,7 @@ func c11SelfTest(c *fw.Ctx) bool {
 	}
 	// every key variant must land in the model clause its name announces
 	wantClause := map[string]string{"valid": "", "valid-ff": "", "noncanonical-zero": "", "noncanonical-sample": "", "absent": handshake.ClKeyMissing, "two-lines": handshake.ClKeyDuplicate, "valid+blank": handshake.ClKeyDuplicate, "blank+valid": handshake.ClKeyDuplicate,
-		"15-bytes": handshake.ClKeyLength, "17-bytes": handshake.ClKeyLength, "not-base64": handshake.ClKeyNotBase64, "valid-then-garbage": handshake.ClKeyNotBase64, "two-keys-one-line": handshake.ClKeyNotBase64, "two-keys-concatenated": handshake.ClKeyNotBase64, "empty": handshake.ClKeyLength}
+		"15-bytes": handshake.ClKeyLength, "21-bytes": handshake.ClKeyLength, "32-bytes": handshake.ClKeyLength, "17-bytes": handshake.ClKeyLength, "not-base64": handshake.ClKeyNotBase64, "valid-then-garbage": handshake.ClKeyNotBase64, "two-keys-one-line": handshake.ClKeyNotBase64, "two-keys-concatenated": handshake.ClKeyNotBase64, "empty": handshake.ClKeyLength}
 	for _, k := range c11Keys {
 		r := ok
 		r.Key = k.Lines
